@@ -25,6 +25,7 @@
 #endif
 #define MAXCAP (2 * CAP) // largest capacity rehash may choose from CAP (asserted)
 #define NKEYS (CAP + 2)
+#define KROW 4            // >= KLEN
 #define OPK CAP          // index of the operated key
 #define XK (CAP + 1)     // index of the observer key
 
@@ -65,7 +66,13 @@ struct IN_t nondet_IN(void);
 
 #define V(x) ((void *)(uintptr_t)(x))
 
-static char KEYS[NKEYS][KLEN + 1];
+// one OBJECT per key (not rows of one 2-D array): cbmc then tells keys apart by the pointer's object
+// field, which is also what kidx() tests; with a single array the link between "which key" and
+// "which bytes memcmp reads" went through 64-bit offset arithmetic and capacity 8 did not finish.
+static char KO0[KROW], KO1[KROW], KO2[KROW], KO3[KROW], KO4[KROW], KO5[KROW], KO6[KROW], KO7[KROW], KO8[KROW],
+    KO9[KROW], KO10[KROW], KO11[KROW], KO12[KROW], KO13[KROW], KO14[KROW], KO15[KROW], KO16[KROW], KO17[KROW];
+static char *const KEYS[18] = { KO0, KO1, KO2, KO3, KO4, KO5, KO6, KO7, KO8, KO9, KO10, KO11, KO12, KO13, KO14,
+                                KO15, KO16, KO17 };
 static int KL[NKEYS];
 static uint64_t HV[NKEYS];           // fnv_hash of each key object, computed once (real fnv_hash)
 static bool EQ[NKEYS][NKEYS];        // content equality of key objects
@@ -85,6 +92,10 @@ static void build(void) {
       for (int i = 0; i < KLEN; i++)
         if (i < KL[p] && KEYS[p][i] != KEYS[q][i]) e = false;
       EQ[p][q] = e;
+#ifndef NO_LEMMA
+      // lemma handed to the solver (proved by h_fnv_congruence): equal contents => equal hash
+      __CPROVER_assume(!e || HV[p] == HV[q]);
+#endif
     }
   int used = 0;
   for (int s = 0; s < CAP; s++) {
@@ -97,6 +108,9 @@ static void build(void) {
   map.buckets = B;
   map.capacity = CAP;
   map.used = used;
+#ifdef MAXLIVE
+  { int nl = 0; for (int s = 0; s < CAP; s++) if (IN.kind[s] == 2) nl++; __CPROVER_assume(nl <= MAXLIVE); }
+#endif
 }
 
 // key-object index of a slot's key pointer: -1 NULL, -2 TOMBSTONE, -3 foreign
@@ -171,6 +185,40 @@ static void observer_untouched(Abs x0, Abs x1) {
   VASSERT(!x0.present || x1.val == x0.val, "a key other than the operated one changed value");
 }
 
+// ---- memcmp contract stub (cbmc only: --replace-calls memcmp:stub_memcmp_keys) ------------------
+// hashmap.c calls memcmp only from match(), on two key objects and with n equal to both lengths.
+// Those preconditions are ASSERTED here; under them memcmp's contract is "0 iff the first n bytes
+// are equal", which is the definition of EQ[][] (h_memcmp_contract proves EQ[][] against cbmc's own
+// memcmp model on the same objects).  Needed because with the byte-level memcmp on a symbolically
+// selected key pointer the capacity-8 proofs did not finish (>250 s vs 3.5 s).  Native replay runs
+// the real memcmp.
+#ifdef NATIVE
+static int nondet_int(void) { return 1; }   // stubs are not used natively
+#else
+int nondet_int(void);
+#endif
+int stub_memcmp_keys(const void *a, const void *b, size_t n) {
+  int x = kidx((char *)a), y = kidx((char *)b);
+  VASSERT(x >= 0 && y >= 0, "memcmp stub: both arguments are key objects");
+  VASSERT(x < 0 || y < 0 || (n == (size_t)KL[x] && n == (size_t)KL[y]), "memcmp stub: n equals both key lengths");
+  __CPROVER_assume(x >= 0 && y >= 0);
+  if (EQ[x][y]) return 0;
+  int r = nondet_int();
+  __CPROVER_assume(r != 0);
+  return r;
+}
+void h_memcmp_contract(void) {
+  HAVOC_IN();
+  build();
+  for (int p = 0; p < NKEYS; p++)
+    for (int q = 0; q < NKEYS; q++)
+      if (KL[p] == KL[q])
+        VASSERT((memcmp(KEYS[p], KEYS[q], KL[p]) == 0) == EQ[p][q], "EQ[p][q] is exactly memcmp(p,q,len)==0 for equal lengths");
+      else
+        VASSERT(!EQ[p][q], "keys of different length are different keys");
+  VCOVER();
+}
+
 // ---- rehash stubs (selected per harness with goto-instrument --replace-calls) ----------------
 void stub_rehash_never(HashMap *m) {
   VASSERT(0, "rehash() called although the table is below the 70% load trigger");
@@ -193,6 +241,16 @@ void stub_rehash_contract(HashMap *m) {
   stub_rehash_calls++;
   stub_rehash_load = (m->used * 100) / m->capacity;
   *m = rehashed;
+}
+
+// fnv_hash is a function of (bytes, length): the lemma assumed in build()
+void h_fnv_congruence(void) {
+  HAVOC_IN();
+  char a[KROW], b[KROW];
+  __CPROVER_assume(IN.kl[0] >= 1 && IN.kl[0] <= KLEN);
+  for (int i = 0; i < KLEN; i++) { a[i] = IN.kb[0][i]; b[i] = i < IN.kl[0] ? IN.kb[0][i] : IN.kb[1][i]; }
+  VASSERT(fnv_hash(a, IN.kl[0]) == fnv_hash(b, IN.kl[0]), "fnv_hash depends only on the first len bytes");
+  VCOVER();
 }
 
 // ---- put ------------------------------------------------------------------------------------
@@ -255,7 +313,13 @@ void h_get(void) {
   void *r = hashmap_get2(&map, KEYS[OPK], KL[OPK]);
 
   VASSERT(!verif_unreachable, "unreachable() not reached");
-  VASSERT(r == (k0.present ? k0.val : NULL), "get2 returns the stored value, or NULL for an absent key");
+  // (stated per slot: "the value of SOME live entry with these contents"; with I3 that entry is the
+  // only one, and this form does not make the solver re-derive uniqueness)
+  bool any = false, hit = false;
+  for (int s = 0; s < CAP; s++)
+    if (IN.kind[s] == 2 && EQ[s][OPK]) { any = true; if (r == B0[s].val) hit = true; }
+  VASSERT(any == k0.present, "harness: scan agrees with abs_at");
+  VASSERT(any ? hit : r == NULL, "get2 returns the stored value, or NULL for an absent key");
   VASSERT(map.buckets == B && map.capacity == CAP && map.used == used0, "get2 does not modify the map header");
   for (int s = 0; s < CAP; s++)
     VASSERT(B[s].key == B0[s].key && B[s].keylen == B0[s].keylen && B[s].val == B0[s].val, "get2 does not modify any slot");
